@@ -110,7 +110,8 @@ func SimpleCommands(t *rapid.T) []Command {
 	for i := 0; i < n; i++ {
 		c := Command{
 			Name:   rapid.SampledFrom([]string{"show", "configure", "*", "ping"}).Draw(t, "cmd_name"),
-			Action: rapid.SampledFrom([]int{ActionPermit, ActionPermit, ActionDeny}).Draw(t, "cmd_action"),
+			// 0 = the entry has no action key, 7 = a number that is neither permit nor deny
+			Action: rapid.SampledFrom([]int{ActionPermit, ActionPermit, ActionDeny, ActionPermit, ActionDeny, 0, 7}).Draw(t, "cmd_action"),
 		}
 		nm := rapid.IntRange(0, 2).Draw(t, "nmatch")
 		for j := 0; j < nm; j++ {
